@@ -32,37 +32,39 @@ def shards(mode, family, count, n):
 
 
 def small(mode, fams):
-    return [[("--job", mode, f, "0", str(c)) for f, c in fams]]
+    return [("--job", mode, f, "0", str(c)) for f, c in fams]
 
 
 def plan(tier):
-    """list of (binary kind, [job tuples], sampled?) — every family is enumerated completely"""
+    """list of (binary kind, [job tuples], number of samples to print) — every family is enumerated completely.
+    Inside one process the families are ordered shortest first, so the first report of a signature is a short input."""
     thorough = tier == "thorough"
     P = []
     # ---- encode + round trip --------------------------------------------------------------------------------------
-    enc_small = [("long", 58 * 36 + 256), ("enc6:6", 6 ** 6), ("full:2", 256 ** 2), ("full:1", 256), ("full:0", 1), ("enc6:5", 6 ** 5)]
+    P.append(("san", small("enc", [("full:0", 1), ("full:1", 256), ("full:2", 256 ** 2)]), 1))
+    enc_b = [("enc6:5", 6 ** 5), ("long", 58 * 36 + 256), ("enc6:6", 6 ** 6)]
     if not thorough:
-        enc_small.append(("enc6:4", 6 ** 4))        # thorough: subsumed by full:4
+        enc_b.insert(0, ("enc6:4", 6 ** 4))        # thorough: subsumed by full:4
     else:
-        enc_small += [("enc6:7", 6 ** 7), ("enc6:8", 6 ** 8)]
-    P += [("san", j, True) for j in small("enc", enc_small)]
-    P += [("san", j, k == 9) for k, j in enumerate(shards("enc", "full:3", 256 ** 3, 16))]
+        enc_b += [("enc6:7", 6 ** 7), ("enc6:8", 6 ** 8)]
+    P.append(("san", small("enc", enc_b), 2 if thorough else 3))
+    P += [("san", j, int(k == 9)) for k, j in enumerate(shards("enc", "full:3", 256 ** 3, 16))]
     # ---- decode of arbitrary text ---------------------------------------------------------------------------------
-    dec_small = [("dec13:5", 13 ** 5)]
-    for p in (16, 17, 18, 19):
-        for l in range(0, 5 if thorough else 4):
-            dec_small.append(("heap13:%d:%d" % (p, l), 13 ** l))
-    dec_small += [("full:2", 256 ** 2), ("full:1", 256), ("full:0", 1)]
+    P.append(("san", small("dec", [("full:0", 1), ("full:1", 256), ("full:2", 256 ** 2)]), 1))
+    dec_b = [("dec13:5", 13 ** 5)]
     if not thorough:
-        dec_small.append(("dec13:4", 13 ** 4))      # thorough: subsumed by full:4
-    P += [("san", j, True) for j in small("dec", dec_small)]
-    P += [("san", j, k == 1) for k, j in enumerate(shards("dec", "dec13:6", 13 ** 6, 4))]
-    P += [("san", j, k == 4) for k, j in enumerate(shards("dec", "full:3", 256 ** 3, 16))]
+        dec_b.insert(0, ("dec13:4", 13 ** 4))      # thorough: subsumed by full:4
+    for l in range(0, 5 if thorough else 4):
+        for p in (16, 17, 18, 19):
+            dec_b.append(("heap13:%d:%d" % (p, l), 13 ** l))
+    P.append(("san", small("dec", dec_b), 2 if thorough else 3))
+    P += [("san", j, int(k == 1)) for k, j in enumerate(shards("dec", "dec13:6", 13 ** 6, 4))]
+    P += [("san", j, int(k == 4)) for k, j in enumerate(shards("dec", "full:3", 256 ** 3, 16))]
     if thorough:
-        P += [("san", j, False) for j in shards("dec", "dec13:7", 13 ** 7, 16)]
-        P += [("san", j, False) for j in shards("dec", "dec13:8", 13 ** 8, 96)]
-        P += [("fast", j, k == 200) for k, j in enumerate(shards("enc", "full:4", 256 ** 4, 256))]
-        P += [("fast", j, k == 70) for k, j in enumerate(shards("dec", "full:4", 256 ** 4, 256))]
+        P += [("san", j, 0) for j in shards("dec", "dec13:7", 13 ** 7, 16)]
+        P += [("san", j, 0) for j in shards("dec", "dec13:8", 13 ** 8, 96)]
+        P += [("fast", j, int(k == 200)) for k, j in enumerate(shards("enc", "full:4", 256 ** 4, 256))]
+        P += [("fast", j, int(k == 70)) for k, j in enumerate(shards("dec", "full:4", 256 ** 4, 256))]
     return P
 
 
@@ -129,7 +131,7 @@ def run(ctx):
                 return
             args = ["--deadline", str(int(left))]
             if sampled:
-                args.append("--samples")
+                args += ["--samples", str(sampled)]
             for j in jobs:
                 args += list(j)
             ctx.run_harness(bins[kind], args, tag="c13" if kind == "san" else "c13-fast", env=ASAN_ENV, timeout=left + 300)
@@ -137,6 +139,8 @@ def run(ctx):
 
     vlib.parallel([job(k, j, s) for k, j, s in plan(ctx.tier)], workers=min(vlib.NCPU, 16))
 
+    # the driver keeps the first violation per signature: make that the one with the shortest input (then the smallest)
+    ctx.viols.sort(key=lambda v: (v["sig"], len(v["args"][2]) if len(v["args"]) > 2 else 0, v["args"]))
     if ctx.stats.get("not_executed_after_crash", 0):
         ctx.cap("%d cases were NOT executed: in each harness process, after 2 inputs of one input class (e.g. 'first non-alphabet byte is >= 0x80') had killed the child, "
                 "the remaining inputs of that class were skipped (see the crash violations); the run is therefore not exhaustive" % ctx.stats["not_executed_after_crash"])
